@@ -1,4 +1,128 @@
-import BB.Model.PersistStore
-/-! # C02 (theorems follow) -/
+import BB.Proofs.PersistFull2
+/-!
+# C02 - After a crash and restart no object is served with wrong bytes
+
+The model (`BB.Persist`, files `BB/Model/Persist*.lean`) is the flat local store over a crashable
+medium; a *history* is any sequence of steps (`BB.Persist.Step`): lock regions of uploads and
+refreshes, block rotations, every lock region and I/O operation of both `PeriodicSyncer`
+goroutines (including failing syncs and directory operations), and `crashRestart` with an arbitrary
+subset of the unsynced sector writes, an arbitrary subset of the index record writes and any state
+file that was not yet made durable - any number of times, in any interleaving.  `Reach c w` says that
+`w` is the world after some history from a freshly formatted medium with geometry `c`.
+
+Assumptions, each visible in the model: **A1** lock regions are atomic (one step per region);
+**A2** sector writes are atomic and `Sync()` makes durable exactly the writes issued before it was
+entered (`DataDev.syncBegin/syncEnd/crash`); **A3** epoch seeds are pairwise distinct and a record
+checksummed under one seed does not verify under another (seeds are tokens from a counter that
+survives crashes; `resolve` compares tokens); **A4** a renamed file has the content that was fsynced
+before the rename and renames since the last directory fsync may be lost (`StateDir`).
+Object contents are tokens; a sector holds the set of objects whose bytes of that sector it carries.
+-/
 namespace BB.C02
+open BB.Persist
+
+/-- **Main theorem (world level).** In the world after *any* history - with any crash choices, any
+number of crashes, also during recovery (a restart writes nothing, so a crash during recovery is a
+`crashRestart` with nothing pending) - every index record that the running store resolves (known
+epoch, matching seed, block in the list) is read back as an intact object that was written under
+the record's own key, with content some client offered for that key.  Uses A1-A4. -/
+theorem C02_served_bytes_correct {c : Cfg} (hss : 0 < c.ss) {w : World} (hr : Reach c w) {slot i : Nat} {r : PRec}
+    (hcur : w.idx.curGet slot = some r) (hres : w.resolve r = some i) :
+    ∃ b o, w.pbl.blocks[i]? = some b ∧ w.readAt b.slot r.off r.size = some o ∧
+      o.key = r.key ∧ o.off = r.off ∧ o.size = r.size ∧ (r.key, o.data) ∈ w.shadow := by
+  obtain ⟨b, o, h1, h2, _, h4, h5, h6, _, h8, _⟩ := served_of_inv (inv_reach hss hr) hcur hres
+  exact ⟨b, o, h1, h2, h4, h5, h6, h8⟩
+
+/-- **Main theorem (executable store).** The same for the composite the driver executes:
+`hashingKeyLocationMap` (any slot function, any attempt limits) and the block map over the world.
+`lookup` + `read` after any run of the store yields what was uploaded for the key, or nothing. -/
+theorem C02_served_bytes_correct_store {fc : FCfg} {c : Cfg} (hss : 0 < c.ss) {f : Full} (hr : FReach fc c f) {k : Nat}
+    {l : BB.Store.Loc} (hl : Full.lookup fc f k = some l) :
+    ∃ b o, f.w.pbl.blocks[BB.Store.locBlk l - f.w.pbl.released]? = some b ∧
+      f.w.readAt b.slot (BB.Store.locOff l) (BB.Store.locSize l) = some o ∧ o.key = k ∧ (k, o.data) ∈ f.w.shadow := by
+  have hreach := freach_world hss hr
+  unfold Full.lookup Index.get at hl
+  obtain ⟨a', _, _, ⟨R, hR, _, hk, _, hloc⟩, _⟩ := (BB.Index.getAux_spec fc.idx f.thr f.tab k fc.idx.maxGet 0).1 l hl
+  obtain ⟨r, i, hc, hres, rfl⟩ := tab_some hR
+  obtain ⟨b, o, h1, h2, h4, _, _, h8⟩ := C02_served_bytes_correct hss hreach hc hres
+  simp only at hk hloc
+  subst hloc
+  refine ⟨b, o, ?_, ?_, by rw [h4, hk], by rw [← hk]; exact h8⟩
+  · simpa [BB.Store.locBlk_mkLoc] using h1
+  · simpa [BB.Store.locOff_mkLoc, BB.Store.locSize_mkLoc] using h2
+
+/-- **Epochs are covered.** An epoch appears in a state file (durable, renamed but not yet
+directory-synced, or being written) only if every object finalized in it is `durable` - a flag the
+model sets only when a data sync returns for objects that were copied before that sync was entered
+(`syncBegin` marks, `syncEnd` promotes) - and lies below the file's write offset of its block.
+Hence every finalize that tagged a record with the epoch happened before the `NotifySyncStarting`
+of a data sync that completed before `GetPersistentState` was taken.  Uses A1, A2. -/
+theorem C02_epoch_covered {c : Cfg} (hss : 0 < c.ss) {w : World} (hr : Reach c w) {f : SFile}
+    (hf : f ∈ filesOf w.dir ∨ ∃ s, w.sw = some s ∧ f = s.file) {o : Obj} (ho : o ∈ w.objs) {j e : Nat} {bs : BState}
+    (hbs : f.blocks[j]? = some bs) (hg : bs.gid = o.gid) (hfin : o.fin = some e)
+    (hlt : e < f.oldest + (fseeds f.blocks).length) :
+    o.durable = true ∧ o.off + o.size ≤ bs.wo := by
+  have h := inv_reach hss hr
+  rcases hf with hf | ⟨s, hs, rfl⟩
+  · obtain ⟨r1, r2, _⟩ := (h.files f hf).committed o ho j bs e hbs hg hfin hlt
+    exact ⟨r1, r2⟩
+  · obtain ⟨r1, r2, _⟩ := (h.swFile s hs).committed o ho j bs e hbs hg hfin hlt
+    exact ⟨r1, r2⟩
+
+/-- What `durable` buys (A2): in every sector of the object, the durable medium carries the
+object's bytes and so does every pending write to that sector - so they survive a crash with any
+subset of the pending writes. -/
+theorem C02_durable_survives {c : Cfg} (hss : 0 < c.ss) {w : World} (hr : Reach c w) {o : Obj} (ho : o ∈ w.objs)
+    (hd : o.durable = true) {b : Blk} (hb : b ∈ w.pbl.blocks ++ w.pbl.toRelease) (hg : b.gid = o.gid) {s : Nat}
+    (hs : s ∈ secsOf w.cfg.ss o.off o.size) (keep : List Bool) :
+    o.id ∈ (w.data.crash keep).durGet o.slot s := by
+  have h := inv_reach hss hr
+  have hheld : ∃ b ∈ held w.pbl w.zombies, b.gid = o.gid := ⟨b, List.mem_append_left _ hb, hg⟩
+  exact ((h.dev.durable o ho hd hheld s hs).crash keep).1
+
+/-- **Records after a restart.** A record on the index device (durable or pending) resolves in the
+block list a restart would build from a state file only if it describes an object of the block it
+resolves to, finalized no later than the record's epoch, durable, and below the file's write
+offset: its data range lies in durable sectors written by its own upload.  Uses A1-A4. -/
+theorem C02_record_valid_after_restart {c : Cfg} (hss : 0 < c.ss) {w : World} (hr : Reach c w) {f : SFile}
+    (hf : f ∈ filesOf w.dir) {r : PRec} (hrec : r ∈ recsOf w.idx) {i : Nat}
+    (hres : (f.pbl w.cfg.ss).refToIdx r.epoch r.bfl = some (i, r.seed)) :
+    ∃ bs o, f.blocks[i]? = some bs ∧ o ∈ w.objs ∧ o.gid = bs.gid ∧ o.key = r.key ∧ o.off = r.off ∧ o.size = r.size ∧
+      o.durable = true ∧ o.off + o.size ≤ bs.wo := by
+  have h := inv_reach hss hr
+  have hfi := h.files f hf
+  obtain ⟨bs, o, hbs, ho, hg, hm⟩ := hfi.res r hrec i hres
+  obtain ⟨hk, hoff, hsz, _, e, hfin, hle⟩ := hm
+  have hlt : e < f.oldest + (fseeds f.blocks).length := by
+    obtain ⟨h0, _, h1, _⟩ := (refToIdx_iff _ _ _ _ _).1 hres
+    have := (List.getElem?_eq_some_iff.1 h1).1
+    simp only [SFile.pbl] at h0 this
+    omega
+  obtain ⟨r1, r2, _⟩ := hfi.committed o ho i bs e hbs hg.symm hfin hlt
+  exact ⟨bs, o, hbs, ho, hg, hk, hoff, hsz, r1, r2⟩
+
+/-- **No overwrite after restart.** (1) Every object restored by a restart ends at or below the
+cursor its block was re-attached with (`⌈write offset / sector⌉ · sector`), every object the
+running process allocates in that block starts at or above it, and the cursor is sector aligned: no
+sector write of the running process touches a sector of a restored object.  (2) The slot of every
+block that a state file a restart may still read refers to is not in the allocator's free list.
+Uses A1, A4. -/
+theorem C02_no_overwrite_after_restart {c : Cfg} (hss : 0 < c.ss) {w : World} (hr : Reach c w) :
+    (∀ o ∈ w.objs, ∀ n ∈ w.objs, o.mine = false → n.mine = true → ∀ b ∈ held w.pbl w.zombies, b.gid = o.gid → b.gid = n.gid →
+      ∀ s, s ∈ secsOf w.cfg.ss o.off o.size → s ∉ secsOf w.cfg.ss n.off n.size) ∧
+    (∀ f ∈ filesOf w.dir, ∀ bs ∈ f.blocks, bs.slot ∉ w.free) := by
+  have h := inv_reach hss hr
+  refine ⟨?_, ?_⟩
+  · intro o ho n hn hom hnm b hb hgo hgn s hs1 hs2
+    exact secs_disjoint h.cfg (h.obj.aligned b hb) ((h.obj.restored o ho hom).2.2 b hb hgo) (h.obj.baseLe n hn hnm b hb hgn) hs1 hs2
+  · intro f hf bs hbs hfree
+    obtain ⟨b, hb, _, g2⟩ := (h.files f hf).heldIn bs hbs
+    have hn := h.own.slots
+    rw [List.nodup_append] at hn
+    refine hn.2.2 b.slot (List.mem_map.2 ⟨b, ?_, rfl⟩) bs.slot hfree g2
+    unfold held
+    rcases List.mem_append.1 hb with hb | hb
+    · exact List.mem_append_left _ (List.mem_append_left _ hb)
+    · exact List.mem_append_left _ (List.mem_append_right _ hb)
+
 end BB.C02
